@@ -9,6 +9,7 @@ CFG = {
         # work package wrows: direct model=implementation rows for the WRITER side
         J("scaled", "c01-encw", imports="Base Stream Inst Run RunWRows", shard=20),
         J("scaled", "c01-aw", imports="Base Stream Inst Run RunWRows", shard=8),
+        J("prod", "c03-lengths"),
     ],
     "run_modules": ["RunC01", "RunHistStack", "RunWRows", "RunWRowsProofs"],
     "rule": "scaled constants: generated writing plans (1-4 files, 0-7 pieces of boundary sizes around CIPHERBUF/CHUNK/BLOCK, "
@@ -36,3 +37,7 @@ CFG["explanation"] += ((" || " if CFG["explanation"] else "") + "wrows: c01-encw
                        "are inputs; C01_rows_archive_write: this is archive_write with any pubk / dh), the HashMap iteration order observed in the real footer passed as the model's "
                        "`order` (C01_rows_order_is_permutation), brotli's compressor as a table from block plaintext to the real compressed block (cut apart by the sizes footer, "
                        "decoded by the brotli crate directly); its oracle is the independent FORMAT.md decoder returning exactly the files written")
+
+# round-4 seeds C01-m7 / C01-m8
+CFG["rule"] += ("; c03-lengths (production constants, shared with C03): one file sized so that the encryption layer's plaintext takes every length in [k*CHUNK-8, k*CHUNK+24], "
+                "k = 1, 2 (thorough 3) - the archive opens, lists and reads back what was written; recipients are handed to the configuration in one or in two add_public_keys calls")
